@@ -13,7 +13,9 @@ From GT Require Import Base.UTree Model.Reroot Model.Prune Model.Collapse Model.
      Proofs.HeapPruneTree Proofs.HeapPruneSq Proofs.HeapRotateSq Proofs.HeapLoopsTotal Proofs.HeapHistory
      Model.HeapEdit2 Proofs.HeapCtx Proofs.HeapSortSq Proofs.HeapSingle Proofs.HeapSingleSq.
 From GT Require Model.LocalEdit.
-From GT Require Import Proofs.HeapEdgesSeq Proofs.HeapEdgesSq Proofs.HeapTipsLoop.
+From GT Require Import Proofs.HeapEdgesSeq Proofs.HeapEdgesSq Proofs.HeapTipsLoop Proofs.HeapTips Proofs.HeapTipsSq.
+From GT Require Spec.Obs.
+From GT Require Import Model.HeapBits Proofs.HeapBits.
 Import ListNotations.
 Local Close Scope Q_scope.
 Local Open Scope string_scope.
@@ -831,3 +833,107 @@ Example C03Heap_run_nni_reroot_undo :
   forallb (chk_nni_rr (rr_at hx_deep 3)) (nni_list (rr_at hx_deep 3)) = true.
 Proof. vm_compute. reflexivity. Qed.
 Print Assumptions C03Heap_run_nni_reroot_undo.
+
+(** * Round 7 *)
+
+(** the by-pointer loop of Tree.RemoveTips (Tips() snapshot, per-tip check, removeTip on the
+    pointer) against the by-name loop of Model/Prune.v, error messages included, for the trees
+    of Properties/C06.v: no single node, a root that is not a tip, distinct tip names *)
+Theorem C03Heap_remove_tips_by_pointer_square : forall revert names h t, Good h -> abs h = Some t ->
+  no_single t = true -> degree t <> 1 -> NoDup (Obs.leaves t) ->
+  match remove_loop revert names (tip_names t) t with
+  | Ok t' => exists h', remove_tips_by_pointer_heap revert names h = HOk h' /\ Good h' /\ abs h' = Some t'
+  | Err m => remove_tips_by_pointer_heap revert names h = HErr m
+  end.
+Proof. exact remove_tips_by_pointer_square. Qed.
+Print Assumptions C03Heap_remove_tips_by_pointer_square.
+
+(** ... and against Tree.RemoveTips as a whole ([remove_tips]: the loop, then UpdateTipIndex) *)
+Theorem C03Heap_remove_tips_square : forall revert names h t, Good h -> abs h = Some t ->
+  no_single t = true -> degree t <> 1 -> NoDup (Obs.leaves t) ->
+  match remove_tips revert names t with
+  | Ok t' => exists h', remove_tips_by_pointer_heap revert names h = HOk h' /\ Good h' /\ abs h' = Some t'
+  | Err m => remove_tips_by_pointer_heap revert names h = HErr m
+  end.
+Proof. exact remove_tips_by_pointer_square'. Qed.
+Print Assumptions C03Heap_remove_tips_square.
+
+(** one removeTip keeps the other tips, with their ids and names (or reduces the tree to one of
+    them, which then has no neighbour) *)
+Theorem C03Heap_remove_tip_keeps : forall nm h lt p j x nmx cmx h', Rep h lt -> no_single (erase lt) = true ->
+  lnode_at lt (p ++ [j])%list = Some (LNode x nmx cmx [None]) -> remove_tip_heap nm x h = HOk h' ->
+  exists lt', Rep h' lt' /\
+    forall e, In e (ltips lt) -> fst e <> x -> fst e <> lid lt -> In e (ltips lt') \/ exists cm, lt' = LNode (fst e) (snd e) cm [].
+Proof. exact remove_tip_heap_keeps. Qed.
+Print Assumptions C03Heap_remove_tip_keeps.
+
+(** the hypotheses hold on the test trees (the runs are in C03Heap_run_remove_tips_loop) *)
+Definition nodup_strings (l : list string) : bool :=
+  (fix go (l : list string) : bool := match l with [] => true | a :: r => negb (existsb (String.eqb a) r) && go r end) l.
+Example C03Heap_run_remove_tips_hyps :
+  forallb (fun t => wf t && no_single t && negb (Nat.eqb (degree t) 1) && nodup_strings (Obs.leaves t))
+          [hx_deep; rr_at hx_deep 1; rr_at hx_deep 3; hx_start] = true /\
+  forallb (fun t => forallb (fun p => chk_tips_loop t (fst p) (snd p))
+             [(false, ["a"; "c"]); (true, ["a"; "b"]); (false, ["a"; "b"; "c"; "d"; "e"]); (true, [])])
+          [hx_deep; rr_at hx_deep 1; rr_at hx_deep 3; hx_start] = true.
+Proof. vm_compute. split; reflexivity. Qed.
+Print Assumptions C03Heap_run_remove_tips_hyps.
+
+(** bitsets (Edge.bitset) as a layer over the store (Model/HeapBits.v): ClearBitSets and
+    UpdateBitSet of one tree write only the bitsets of its own branches: the structure of the
+    store and the bitsets of any other tree of the same store (e.g. the tree a clone was made
+    from) are untouched *)
+Theorem C03Heap_clear_bits_frame : forall len es b x, ~ In x es -> clear_bits len es b x = b x.
+Proof. exact clear_bits_frame. Qed.
+Print Assumptions C03Heap_clear_bits_frame.
+
+Theorem C03Heap_update_bits_frame : forall rows b b' x, update_bits rows b = Some b' -> ~ In x (map fst rows) -> b' x = b x.
+Proof. exact update_bits_frame. Qed.
+Print Assumptions C03Heap_update_bits_frame.
+
+Theorem C03Heap_reindex_other_tree_untouched : forall r len idx bh bh1 bh2 lt lt2 r2,
+  dump_at (fst bh) r = Some lt -> dump_at (fst bh) r2 = Some lt2 ->
+  (forall x, In x (leids lt) -> ~ In x (leids lt2)) ->
+  clear_bitsets_at r len bh = HOk bh1 -> update_bitsets_at r idx bh1 = HOk bh2 ->
+  fst bh2 = fst bh /\ dump_at (fst bh2) r2 = Some lt2 /\ forall x, In x (leids lt2) -> snd bh2 x = snd bh x.
+Proof. exact reindex_other_tree_untouched. Qed.
+Print Assumptions C03Heap_reindex_other_tree_untouched.
+
+(** a store with two trees: the heap of [hx_deep] and, at ids 100.., the cherry (u,v) *)
+Definition two_tree_store : heap :=
+  let h := heap_of hx_deep in
+  mkHeap (hnodes h ++ [(100, mkHN "" [] [101; 102] [100; 101]); (101, mkHN "u" [] [100] [100]); (102, mkHN "v" [] [100] [101])])%list
+         (hedges h ++ [(100, mkHE 100 101 e0); (101, mkHE 100 102 e0)])%list (hroot h) 103 102.
+Definition bits_eqb (a b : option bitset) : bool :=
+  match a, b with
+  | Some x, Some y => Nat.eqb (length x) (length y) && forallb (fun p => Bool.eqb (fst p) (snd p)) (combine x y)
+  | None, None => true
+  | _, _ => false
+  end.
+Example C03Heap_run_bitsets :
+  match dump_at two_tree_store 0, dump_at two_tree_store 100 with
+  | Some lt1, Some lt2 =>
+    match clear_bitsets_at 0 6 (two_tree_store, fun _ => None) with
+    | HOk b1 =>
+      match update_bitsets_at 0 ["a"; "b"; "c"; "d"; "e"; "f"] b1 with
+      | HOk b2 =>
+        match clear_bitsets_at 100 2 b2 with
+        | HOk b3 =>
+          match update_bitsets_at 100 ["u"; "v"] b3 with
+          | HOk b4 =>
+            (* the two trees have no branch in common; the first tree's bitsets are not nil, and are the
+               same after the second tree was re-indexed; the second tree's bitsets are as expected *)
+            forallb (fun x => negb (existsb (Nat.eqb x) (leids lt2))) (leids lt1) &&
+            forallb (fun x => match snd b2 x with Some v => existsb (fun z => z) v | None => false end) (leids lt1) &&
+            forallb (fun x => bits_eqb (snd b4 x) (snd b2 x)) (leids lt1) &&
+            bits_eqb (snd b4 100) (Some [true; false]) && bits_eqb (snd b4 101) (Some [false; true]) &&
+            (* and updating without clearing first is the Go error *)
+            match update_bitsets_at 100 ["u"; "v"] b2 with HErr _ => true | _ => false end
+          | _ => false end
+        | _ => false end
+      | _ => false end
+    | _ => false end
+  | _, _ => false
+  end = true.
+Proof. vm_compute. reflexivity. Qed.
+Print Assumptions C03Heap_run_bitsets.
